@@ -10,6 +10,7 @@
 //! answers are diffed against the implementation answers by `/verif/check`.
 
 mod cksum;
+mod path;
 mod seg;
 mod util;
 
@@ -62,6 +63,7 @@ fn main() {
     match engine.as_str() {
         "seg" => seg::run(&opts, &mut out),
         "cksum" => cksum::run(&opts, &mut out),
+        "path" => path::run(&opts, &mut out),
         other => {
             eprintln!("unknown engine {other}");
             std::process::exit(2);
